@@ -660,6 +660,8 @@ fn norm(k: Key, n: u8) -> Key
         Key::EntityMutation(e, _) => Key::EntityMutation(e % n, 0),
         Key::EntityRemoval(e, _) => Key::EntityRemoval(e % n, 0),
         Key::Despawn(e) => Key::Despawn(e % n),
+        Key::Broadcast(2) => Key::Broadcast(2),
+        Key::AnyEntityEvent(2) => Key::AnyEntityEvent(2),
         Key::Broadcast(_) => Key::Broadcast(0),
         Key::AnyEntityEvent(_) => Key::AnyEntityEvent(0),
         Key::Insertion(_) => Key::Insertion(0),
@@ -693,8 +695,11 @@ pub fn decode(bytes: &[u8], max_steps: usize) -> WCase
     let n_steps = below(byte(&mut u), max_steps + 1);
     let mut key = |u: &mut Unstructured| -> Key {
         let e = below(byte(u), n as usize) as u8;
-        match below(byte(u), 11)
+        match below(byte(u), 13)
         {
+            // never fired: event registrations keyed by the resource's type (revoking them must not touch the
+            // resource-mutation registrations)
+            11 => Key::Broadcast(2), 12 => Key::AnyEntityEvent(2),
             0 => Key::Broadcast(0), 1 => Key::AnyEntityEvent(0), 2 => Key::EntityEvent(e, 0), 3 => Key::Insertion(0), 4 => Key::Mutation(0),
             5 => Key::Removal(0), 6 => Key::EntityInsertion(e, 0), 7 => Key::EntityMutation(e, 0), 8 => Key::EntityRemoval(e, 0),
             9 => Key::ResourceMutation(0), _ => Key::Despawn(e),
